@@ -1,4 +1,6 @@
 CONSTANTS
+  Modes = {"single", "folder"}
+  Elsewheres = {"none", "same_ident_renamed", "same_ident_plain"}
   Kinds = {"struct", "generic_struct", "unit_enum", "tagged_enum", "alias", "recursive_struct", "recursive_enum"}
   Prefixes = {"", "Pre"}
 INIT Init
